@@ -36,6 +36,8 @@ class Seq:
     def at(self, i):
         if IR.is_seq(self.et):
             return Seq(IR.elem(self.et), z3.Select(self.arr, i), z3.Select(self.lens, i))
+        if isinstance(self.arr, dict):       # sequence of records with scalar fields, kept as one array per field (read-only)
+            return Rec(self.et[4:], {fn: z3.Select(a, i) for fn, a in self.arr.items()})
         return z3.Select(self.arr, i)
 
 
@@ -227,6 +229,9 @@ class Engine:
                 k = z3.Int('k!len')
                 st.assume(Quant('k', z3.IntVal(0), n, (lambda kk, lens=lens: z3.And(z3.Select(lens, kk) >= 0, z3.Select(lens, kk) <= 2 ** 31)), 'row lengths within [0, 2^31]'))
                 return Seq(et, fresh(name, zsort(t)), n, lens)
+            if et.startswith('rec:') and all(ft in INTS or ft in ('double', 'bool') for fn, ft in self.records.fields(et[4:])):
+                # records with scalar fields only: one array per field (such sequences are read, never written, in the functions under contract)
+                return Seq(et, {fn: fresh('%s.%s' % (name, fn), z3.ArraySort(z3.IntSort(), z3.RealSort() if ft == 'double' else (z3.BoolSort() if ft == 'bool' else z3.IntSort()))) for fn, ft in self.records.fields(et[4:])}, n)
             if et.startswith('rec:') or et.startswith('pair<'):
                 return Seq(et, None, n)      # opaque elements
             return Seq(et, fresh(name, zsort(t)), n)
@@ -795,6 +800,7 @@ class Engine:
             b = self.ev_nocheck(lhs.base, st)
             i = self.ev(lhs.idx, st)
             self.oblige(st, z3.And(i >= 0, i < b.n), 'bounds', 'index %s within [0, len(%s)) (write)' % (IR.pp_expr(lhs.idx), IR.pp_expr(lhs.base)))
+            if isinstance(b.arr, dict): raise E2Error('write into a sequence of records (read-only model)')
             if isinstance(val, Seq):
                 nb = Seq(b.et, z3.Store(b.arr, i, val.arr), b.n, z3.Store(b.lens, i, val.n))
             else:
@@ -844,6 +850,11 @@ class Engine:
             if isinstance(b, Rec):
                 if x.name not in b.f: raise E2Error('clause field %s does not exist in %s' % (x.name, b.name))
                 return b.f[x.name]
+            if isinstance(b, Seq) and isinstance(b.arr, dict):
+                # data.weight: the sequence of that field over a sequence of records
+                if x.name not in b.arr: raise E2Error('clause field %s does not exist in the elements of %s' % (x.name, SP.show(x.base)))
+                ft = dict(self.records.fields(b.et[4:]))[x.name]
+                return Seq(ft, b.arr[x.name], b.n)
             raise E2Error('clause field access on non-record (%s)' % SP.show(x))
         if k == 'index':
             b = self.sv(x.base, st, bound); i = self.sv(x.idx, st, bound)
